@@ -11,7 +11,11 @@ import sys
 import tempfile
 
 import textx.metamodel as tmm
+import textx.registration as treg
+from textx import LanguageDesc, metamodel_from_str, register_language
 from textx.exceptions import TextXError
+
+EXT = {}      # language name -> registered meta-model (the referenced languages of the cases)
 
 
 def ns_of_path(path, root):
@@ -76,6 +80,9 @@ def run_case(case):
         def cref(c):
             if c is None:
                 return None
+            for lang, emm in EXT.items():
+                if getattr(c, "_tx_metamodel", None) is emm:
+                    return ["@%s.%s" % (lang, c.__name__), 0]
             return [getattr(c, "_tx_fqn", "?" + repr(c)), ident.get(id(c), -1)]
 
         spaces = []
@@ -163,6 +170,10 @@ def run_case(case):
 
 def main():
     payload = json.load(sys.stdin)
+    treg.clear_language_registrations()
+    for lang, rules in payload.get("langs", []):
+        EXT[lang] = metamodel_from_str("".join("%s: 'x_%s' t?='!';\n" % (r, r) for r in rules))
+        register_language(LanguageDesc(lang, pattern="*." + lang, metamodel=EXT[lang]))
     json.dump([run_case(c) for c in payload["cases"]], sys.stdout)
 
 
